@@ -61,7 +61,14 @@ def c09IAPD (held : List Held) (c : ClientKey) (t1 : Int) (q : IAPDReq) (r : IAP
     | _ => true) &&
   -- no hint at all and holds something: answered with what it holds, nothing else
   (!(q.hintless && !mine.isEmpty) ||
-    (mine.all again && r.pfxs.all (fun (b, _) => mine.any (fun h => h.pfx == b))))
+    (mine.all again && r.pfxs.all (fun (b, _) => mine.any (fun h => h.pfx == b)))) &&
+  -- every hint is the unspecified prefix or names exactly a prefix the client holds (and it holds
+  -- something): answered from what it holds — such a request never consumes a further block
+  (!(q.hints.all (fun hint => match hint with
+        | .empty => true
+        | .pfx ip _ len => mine.any (fun h => h.pfx == ⟨ip, len⟩)
+        | .nomask _ _ => false) && !mine.isEmpty) ||
+    r.pfxs.all (fun (b, _) => mine.any (fun h => h.pfx == b)))
 
 def PMon.goIAPDs (p : Pool6) (c : ClientKey) (t0 t1 : Int) :
     List Held → List IAPDReq → List IAPDResp → List Held × PVerdict
